@@ -141,3 +141,26 @@ func verifLemmaRtpHeaderRoundTrip(h RtpHeader, buf []byte) (RtpHeader, error) {
 //@   loop 1 step [C12.pack.body] int: forall j in [0, len(payload)) :: pkt.Raw[12+j] == payload[j]
 //@   loop 1 step [C12.pack.out]  len(out) == old(len(out)) + 1
 //@ end
+
+// C12: AAC (RFC 3640 AAC-hbr, one access unit per packet): AU-headers-length 16 bits, one AU header carrying the
+// 13-bit frame size and index 0, then the frame's bytes unchanged.
+//@ func (*RtpPackerPayloadAac).Pack
+//@   props C12
+//@   ensures [C12.aac.none] isnil(in) || maxSize <= 0 ==> len(result) == 0
+//@   ensures [C12.aac.one]  !isnil(in) && maxSize > 0 ==> len(result) == 1 && len(result[0]) == 4 + len(in)
+//@   ensures [C12.aac.hdr]  !isnil(in) && maxSize > 0 ==> result[0][0] == 0 && result[0][1] == 16 && (len(in) < 8192 ==> be16(result[0], 2) == uint16(len(in)) << 3)
+//@   ensures [C12.aac.body] int: !isnil(in) && maxSize > 0 ==> forall j in [0, len(in)) :: result[0][4+j] == in[j]
+//@ end
+// C12: G.711 and Opus frames are carried as they are, one frame per packet.
+//@ func (*RtpPackerPayloadPcm).Pack
+//@   props C12
+//@   ensures [C12.pcm.none] isnil(in) || maxSize <= 0 ==> len(result) == 0
+//@   ensures [C12.pcm.one]  !isnil(in) && maxSize > 0 ==> len(result) == 1 && len(result[0]) == len(in)
+//@   ensures [C12.pcm.body] int: !isnil(in) && maxSize > 0 ==> forall j in [0, len(in)) :: result[0][j] == in[j]
+//@ end
+//@ func (*RtpPackerPayloadOpus).Pack
+//@   props C12
+//@   ensures [C12.opus.none] isnil(in) || maxSize <= 0 ==> len(result) == 0
+//@   ensures [C12.opus.one]  !isnil(in) && maxSize > 0 ==> len(result) == 1 && len(result[0]) == len(in)
+//@   ensures [C12.opus.body] int: !isnil(in) && maxSize > 0 ==> forall j in [0, len(in)) :: result[0][j] == in[j]
+//@ end
